@@ -63,17 +63,19 @@ func smsRun(in []byte) (o smsObs) {
 func smsRunes(s string) string { return coqRunes([]rune(s)) }
 
 func smsTimeFields(t time.Time) string {
-	_, off := t.Zone()
-	if off%900 != 0 {
-		return fmt.Sprintf("%d %d %d %d %d %d 999999", t.Year(), int(t.Month()), t.Day(), t.Hour(), t.Minute(), t.Second())
-	}
+	name, off := t.Zone()
+	neg := off < 0 || off == 0 && name == "-" // what Time.WriteTo takes for a negative zone
 	z := func(n int) string {
 		if n < 0 {
 			return fmt.Sprintf("(%d)", n)
 		}
 		return fmt.Sprint(n)
 	}
-	return fmt.Sprintf("%s %d %d %d %d %d %s", z(t.Year()), int(t.Month()), t.Day(), t.Hour(), t.Minute(), t.Second(), z(off/900))
+	zq := z(off / 900)
+	if off%900 != 0 {
+		zq = "999999"
+	}
+	return fmt.Sprintf("%s %d %d %d %d %d %s %s", z(t.Year()), int(t.Month()), t.Day(), t.Hour(), t.Minute(), t.Second(), zq, coqBool(neg))
 }
 
 func smsDurSeconds(d time.Duration) string {
